@@ -94,6 +94,12 @@ class Engine:
         self.fanout_traits = tuple(fanout_traits)
         self.enums = {}
         self.yield_pruned = False
+        # functions outside the state layer that are judged as transitions of a lock-protected state: while they run,
+        # the locked state is addressed as `self` (exactly as inside the state's own methods) and their own receiver as
+        # `outer_self`, so that every rule written for state methods reads the same locations and facts
+        if not hasattr(facts, 'alias_fns'):
+            facts.alias_fns = set()      # shared by every engine over this fact base
+        self._alias = False
         self._collect_enums()
         self.stats = {'paths': 0, 'pruned_branches': 0, 'inlined_calls': 0, 'summarised_calls': 0,
                       'opaque_calls': 0, 'truncated': 0}
@@ -450,6 +456,7 @@ class Engine:
         """enumerate paths of the entry function; returns list[Path].  include_loopbound: also return the states
         cut off at the loop bound (exit == 'loopbound'), for rules that evaluate a loop invariant"""
         self.yield_pruned = include_loopbound
+        self._alias = (fn_path if isinstance(fn_path, str) else fn_path['path']) in self.F.alias_fns
         fn = self.F.fn(fn_path) if isinstance(fn_path, str) else fn_path
         if fn is None:
             from facts import AnchorMissing
@@ -465,6 +472,8 @@ class Engine:
                 args.append(arg_values[i - 1])
                 continue
             name = names.get(i, 'arg%d' % i)
+            if self._alias and name == 'self':
+                name = 'outer_self'
             ty = fn['locals'][i]['ty']
             if ty['k'] in ('ref', 'ptr'):
                 args.append(('ref', (('P', name),)))
@@ -888,6 +897,8 @@ class Engine:
                 return None  # crate-local Deref impls are inlined
             inner = self.read(st, self.deref(args[0])) if args[0][0] == 'ref' else ('unk', 'deref')
             if inner[0] == 'guard':
+                if self._alias:
+                    return [(st, ('ref', (('P', 'self'),)))]
                 return [(st, ('ref', inner[1] + ('<locked>',)))]
             if inner[0] == 'pin':
                 return [(st, inner[1])]
@@ -1000,6 +1011,97 @@ class Engine:
                         for st3, rv in self.call_closure(st2, args[2], [inner]):
                             outs.append((st3, rv))
                 return outs
+            if name == 'and_then':
+                outs = []
+                for st2, inner in self._opt_split(st, args[0]):
+                    if inner is None:
+                        outs.append((st2, NONE))
+                    else:
+                        for st3, rv in self.call_closure(st2, args[1], [inner]):
+                            outs.append((st3, rv))
+                return outs
+            if name in ('unwrap_or', 'or'):
+                outs = []
+                for st2, inner in self._opt_split(st, args[0]):
+                    if inner is None:
+                        outs.append((st2, args[1]))
+                    else:
+                        outs.append((st2, inner if name == 'unwrap_or' else some(inner)))
+                return outs
+            if name in ('unwrap_or_else', 'or_else', 'map_or_else'):
+                outs = []
+                for st2, inner in self._opt_split(st, args[0]):
+                    if inner is None:
+                        for st3, rv in self.call_closure(st2, args[1], []):
+                            outs.append((st3, rv))
+                    elif name == 'map_or_else':
+                        for st3, rv in self.call_closure(st2, args[2], [inner]):
+                            outs.append((st3, rv))
+                    else:
+                        outs.append((st2, inner if name == 'unwrap_or_else' else some(inner)))
+                return outs
+            if name in ('ok_or', 'ok_or_else'):
+                outs = []
+                for st2, inner in self._opt_split(st, args[0]):
+                    if inner is not None:
+                        outs.append((st2, ('agg', RESULT, 'Ok', (('0', inner),))))
+                    elif name == 'ok_or':
+                        outs.append((st2, ('agg', RESULT, 'Err', (('0', args[1]),))))
+                    else:
+                        for st3, rv in self.call_closure(st2, args[1], []):
+                            outs.append((st3, ('agg', RESULT, 'Err', (('0', rv),)) if rv is not PANIC else PANIC))
+                return outs
+            if name in ('cloned', 'copied'):
+                outs = []
+                for st2, inner in self._opt_split(st, args[0]):
+                    if inner is None:
+                        outs.append((st2, NONE))
+                    elif name == 'copied':
+                        outs.append((st2, some(self.read(st2, self.deref(inner)) if inner[0] == 'ref' else inner)))
+                    else:
+                        eid = st2.eid()
+                        st2.events.append({'k': 'call', 'callee': '<T as std::clone::Clone>::clone', 'name': 'clone',
+                                           'args': (inner,), 'ret': ('ret', eid), 'eid': eid, 'fn': fn['path'],
+                                           'ln': t['ln'], 'frame': frame, 'ci': ci, 'mode': 'opaque',
+                                           'argtys': ['&T']})
+                        outs.append((st2, some(('ret', eid))))
+                return outs
+            if name == 'into_iter' and len(args) == 1:
+                return [(st, ('optiter', args[0]))]
+        if name == 'for_each' and args and isinstance(args[0], tuple) and args[0] and args[0][0] == 'optiter':
+            outs = []
+            for st2, inner in self._opt_split(st, args[0][1]):
+                if inner is None:
+                    outs.append((st2, UNIT))
+                else:
+                    for st3, rv in self.call_closure(st2, args[1], [inner]):
+                        outs.append((st3, UNIT if rv is not PANIC else PANIC))
+            return outs
+        if path.startswith('std::result::Result') and name in ('map', 'map_err', 'ok', 'is_ok', 'is_err'):
+            v = args[0]
+            if name in ('is_ok', 'is_err') and v[0] == 'ref':
+                v = self.read(st, v[1])
+            outs = []
+            for st2, variant, inner in self._enum_split(st, v, RESULT, ('Ok', 'Err')):
+                if name in ('is_ok', 'is_err'):
+                    outs.append((st2, ('const', int((variant == 'Ok') == (name == 'is_ok')))))
+                elif name == 'ok':
+                    outs.append((st2, some(inner) if variant == 'Ok' else NONE))
+                elif (name == 'map') == (variant == 'Ok'):
+                    for st3, rv in self.call_closure(st2, args[1], [inner]):
+                        outs.append((st3, ('agg', RESULT, variant, (('0', rv),)) if rv is not PANIC else PANIC))
+                else:
+                    outs.append((st2, ('agg', RESULT, variant, (('0', inner),))))
+            return outs
+        if path.startswith('std::task::Poll') and name == 'map':
+            outs = []
+            for st2, variant, inner in self._enum_split(st, args[0], POLL, ('Ready', 'Pending')):
+                if variant == 'Pending':
+                    outs.append((st2, ('agg', POLL, 'Pending', ())))
+                else:
+                    for st3, rv in self.call_closure(st2, args[1], [inner]):
+                        outs.append((st3, ('agg', POLL, 'Ready', (('0', rv),)) if rv is not PANIC else PANIC))
+            return outs
         if path.startswith('std::task::Poll') and name in ('is_ready', 'is_pending'):
             v = self.read(st, self.deref(args[0]))
             want = 'Ready' if name == 'is_ready' else 'Pending'
@@ -1105,6 +1207,17 @@ class Engine:
             outs.append((st, self.project(v, (('dc', 'Some'), '0'))))
         return outs
 
+    def _enum_split(self, st, v, enum, variants):
+        """fork on a two-variant enum value whose first variant carries one payload: yields (state, variant, payload)"""
+        if v[0] == 'agg':
+            return [(st, v[2], v[3][0][1] if v[3] else None)]
+        outs = []
+        for i, var in enumerate(variants):
+            st2 = st.copy() if i < len(variants) - 1 else st
+            if self.assume_variant(st2, v, var, True, enum):
+                outs.append((st2, var, self.project(v, (('dc', var), '0'))))
+        return outs
+
     def _opt_fork(self, st, v, mk_some):
         outs = []
         for st2, inner in self._opt_split(st, v):
@@ -1113,6 +1226,40 @@ class Engine:
 
     def call_closure(self, st, clo, params):
         """run a closure value on `params`; yields (state, ret)"""
+        if clo[0] == 'fn':
+            fpath = clo[1]
+            callee = self.F.fn(fpath)
+            if callee is not None and fpath not in st.stack and len(st.stack) < self.max_depth + 2:
+                eid = st.eid()
+                frame0 = st.nframe
+                st.events.append({'k': 'call', 'callee': fpath, 'name': callee.get('name') or fpath.split('::')[-1],
+                                  'args': tuple(params), 'ret': None, 'eid': eid,
+                                  'fn': st.stack[-1] if st.stack else '?', 'ln': 0, 'frame': frame0,
+                                  'ci': {}, 'mode': 'inline', 'argtys': []})
+                for st2, rv in self.run_fn(callee, list(params), st):
+                    if rv is not PANIC:
+                        st2.events.append({'k': 'ret', 'callee': fpath, 'name': callee.get('name'), 'ret': rv,
+                                           'eid': eid, 'fn': st2.stack[-1] if st2.stack else '?', 'ln': 0,
+                                           'frame': frame0})
+                    yield st2, rv
+                return
+            short = fpath.split('::')[-1]
+            if fpath.endswith('Waker::wake') or fpath.endswith('Waker::wake_by_ref'):
+                w = params[0]
+                if short == 'wake_by_ref' and w[0] == 'ref':
+                    w = self.read(st, w[1])
+                st.events.append({'k': 'wake', 'waker': w, 'by_ref': short == 'wake_by_ref',
+                                  'fn': st.stack[-1] if st.stack else '?', 'ln': 0, 'frame': st.nframe,
+                                  'callee': fpath, 'name': short, 'eid': st.eid()})
+                yield st, UNIT
+                return
+            if short == 'clone' and params:
+                eid = st.eid()
+                st.events.append({'k': 'call', 'callee': fpath, 'name': 'clone', 'args': tuple(params),
+                                  'ret': ('ret', eid), 'eid': eid, 'fn': st.stack[-1] if st.stack else '?',
+                                  'ln': 0, 'frame': st.nframe, 'ci': {}, 'mode': 'opaque', 'argtys': []})
+                yield st, ('ret', eid)
+                return
         if clo[0] != 'closure':
             eid = st.eid()
             st.events.append({'k': 'call', 'callee': '<closure?>', 'name': '<closure>', 'args': tuple(params),
